@@ -48,7 +48,10 @@ func TestC09_fold_Coop(t *testing.T) {
 		Run: func(_ *testing.T, c c09fCase) kit.Outcome {
 			m := c.WinSize + 1 + c.Drops
 			rec := &lockedRecLimit{est: m + 10}
-			lim, err := limiter.NewDefaultLimiter(rec, int64(time.Hour), int64(time.Hour), 1, c.WinSize, strategy.NewPreciseStrategy(m+10), nil, nil)
+			sc := newSched(c.Yields)
+			// the limiter's logger is a public extension point: with debug output enabled, every log call the limiter
+			// makes on its completion path is a schedule point too (the pinned tree makes none)
+			lim, err := limiter.NewDefaultLimiter(rec, int64(time.Hour), int64(time.Hour), 1, c.WinSize, strategy.NewPreciseStrategy(m+10), debugSchedLogger{schedLogger{sc}}, nil)
 			if err != nil {
 				return kit.Outcome{Harness: err.Error()}
 			}
@@ -61,7 +64,6 @@ func TestC09_fold_Coop(t *testing.T) {
 				toks = append(toks, l)
 			}
 			time.Sleep(20 * time.Microsecond) // every RTT is above the 1 ns threshold
-			sc := newSched(c.Yields)
 			sc.install()
 			defer (*sched)(nil).install()
 			start := make(chan struct{})
@@ -111,3 +113,8 @@ func TestC09_fold_Coop(t *testing.T) {
 		NoShrink: true,
 	})
 }
+
+// debugSchedLogger: a schedule-point logger that reports debug output as enabled.
+type debugSchedLogger struct{ schedLogger }
+
+func (debugSchedLogger) IsDebugEnabled() bool { return true }
